@@ -96,13 +96,20 @@ def run_impl(ind, toks, abandon_after=None):
     from lark.lexer import Token
     out = []
     status = 'Done'
-    gen = ind.process(iter([Token(t, v, k + 1, k + 1, k + 1, k + 1, k + 1, k + 1) for k, (t, v) in enumerate(toks)]))
+    # six distinct numbers per input token: a copied field that lands in another field shows
+    gen = ind.process(iter([Token(t, v, 10 * k + 11, 10 * k + 12, 10 * k + 13, 10 * k + 14, 10 * k + 15, 10 * k + 16)
+                            for k, (t, v) in enumerate(toks)]))
     LAST_POSITIONS[:] = []
     try:
         for i, t in enumerate(gen):
             out.append((str(t.type), str(t)))
-            six = {t.start_pos, t.line, t.column, t.end_line, t.end_column, t.end_pos}
-            LAST_POSITIONS.append(six.pop() if len(six) == 1 and isinstance(t.start_pos, int) else -1)
+            six = [t.start_pos, t.line, t.column, t.end_line, t.end_column, t.end_pos]
+            if six == [0] * 6:
+                LAST_POSITIONS.append(0)
+            elif all(isinstance(x, int) for x in six) and six[0] % 10 == 1 and six == [six[0] + j for j in range(6)]:
+                LAST_POSITIONS.append(six[0] // 10)
+            else:
+                LAST_POSITIONS.append(-1)
             if abandon_after is not None and i + 1 >= abandon_after:
                 status = 'Abandoned'
                 break
@@ -292,13 +299,14 @@ def correspond(ctx):
                 break
             obs.append((toks, out, status, paren, stack))
             pos = list(LAST_POSITIONS)
-            pos_cases.append('(%s, %s, %s)' % ('(mkCfg "NL" ["LP"; "LB"] ["RP"; "RB"] "IN" "DE" %s)' % Z(tab_len),
-                                               L(['(%s, %s)' % (coq_tok(t), N(k + 1)) for k, t in enumerate(toks)]),
-                                               L([N(max(p, 0)) for p in pos])))
-            pos_meta.append((tab_len, toks, out, pos))
             if -1 in pos:
                 ctx.violation('positions-oracle', {'tokens': toks, 'tab_len': tab_len, 'output': out, 'positions': pos}, True,
                               'an emitted token does not carry the six position fields of one input token')
+            if len(pos_cases) < ctx.scale(450, 6000) or ctx.widen:
+              pos_cases.append('(%s, %s, %s)' % ('(mkCfg "NL" ["LP"; "LB"] ["RP"; "RB"] "IN" "DE" %s)' % Z(tab_len),
+                                               L(['(%s, %s)' % (coq_tok(t), N(k + 1)) for k, t in enumerate(toks)]),
+                                               L([N(max(p, 0)) for p in pos])))
+              pos_meta.append((tab_len, toks, out, pos))
             msg = property_oracle(toks, out, status, tab_len)
             nin = sum(1 for t in out if t[0] == 'IN')
             nde = sum(1 for t in out if t[0] == 'DE')
